@@ -72,6 +72,9 @@ struct Stmt {
   bool badrspdir = false;  // rspfile in a directory that cannot be created
   string genlvl;           // "": the generator flag (gen) sits on the rule; "build": set on the build statement; "cleared": the rule says generator = 1, the statement clears it (gen = false)
   vector<string> outp;     // what the command prints, as a list of piece kinds (see RenderOutput)
+  // "header switch" statement: reads hdrs while the source hsel has its first content, hdrs2 afterwards; writes a constant
+  string hsel;
+  vector<string> hdrs2;
   vector<string> AllOuts() const {
     vector<string> r = outs;
     r.insert(r.end(), iouts.begin(), iouts.end());
@@ -108,6 +111,7 @@ static Stmt ParseStmt(const JV& j) {
   s.badrspdir = j["badrspdir"].boolean();
   s.outp = j["outp"].strs();
   s.genlvl = j["genlvl"].str();
+  s.hsel = j["hsel"].str(); s.hdrs2 = j["hdrs2"].strs();
   return s;
 }
 
@@ -222,6 +226,7 @@ struct ModelDisk : public DiskInterface {
 // Globals of one execution
 
 static ModelDisk g_disk;
+static vector<string> CurHdrs(const struct Stmt& st);
 static Scenario* g_sc = nullptr;
 static string g_scratch;        // real directory for the two log files + fifo
 static FILE* g_trace = nullptr; // parent only
@@ -337,6 +342,7 @@ struct FailSpec { int code = 0; bool touch = false; };
 
 struct Running {
   Edge* edge; Stmt* st; string content; int64_t start; bool console;
+  vector<string> hdrs;   // the files the command read beyond its declared inputs (reported in depfile / showIncludes)
 };
 
 struct InvocationCtx {
@@ -395,6 +401,13 @@ static string RunningIds() {
 
 static int FifoTokens(const string& path);
 
+// The files a statement's command reads beyond its declared inputs, as things are on the disk now.
+static vector<string> CurHdrs(const Stmt& st) {
+  if (st.hsel.empty()) return st.hdrs;
+  auto f = g_disk.files.find(st.hsel);
+  bool first = f != g_disk.files.end() && f->second.content == Term(st.hsel, "1", {});
+  return first ? st.hdrs : st.hdrs2;
+}
 struct ModelRunner : public CommandRunner {
   State* state;
   Jobserver::Client* jobserver = nullptr;   // as RealCommandRunner: tokens of killed commands are handed back in Abort()
@@ -421,7 +434,8 @@ struct ModelRunner : public CommandRunner {
     vector<string> names = st->ex;
     names.insert(names.end(), st->im.begin(), st->im.end());
     names.insert(names.end(), st->ddi.begin(), st->ddi.end());
-    names.insert(names.end(), st->hdrs.begin(), st->hdrs.end());
+    vector<string> hdrs = CurHdrs(*st);
+    names.insert(names.end(), hdrs.begin(), hdrs.end());
     vector<string> ins;
     string read = "[";
     for (size_t i = 0; i < names.size(); ++i) {
@@ -441,11 +455,11 @@ struct ModelRunner : public CommandRunner {
       ver += "|" + txt;
       rspseen = JEsc(txt);
     }
-    string content = Term("e" + to_string(st->id), ver, ins);
+    string content = Term("e" + to_string(st->id), ver, st->hsel.empty() ? ins : vector<string>());
     bool dirs = true;
     for (auto& o : st->AllOuts()) dirs = dirs && g_disk.DirOk(o);
     if (st->deps == "depfile" || st->deps == "gcc") dirs = dirs && g_disk.DirOk(st->outs[0] + ".d");
-    g_inv->running.push_back(Running{edge, st, content, g_disk.clock, edge->use_console()});
+    g_inv->running.push_back(Running{edge, st, content, g_disk.clock, edge->use_console(), hdrs});
     // pool usage as seen by an observer: running members per pool
     map<string, int> pu;
     for (auto& r : g_inv->running) pu[r.st->pool]++;
@@ -496,13 +510,13 @@ struct ModelRunner : public CommandRunner {
         put(o, c, term);
       }
       if (st->deps == "depfile" || st->deps == "gcc")
-        put(st->outs[0] + ".d", st->outs[0] + ": " + Join(st->hdrs) + "\n", false);
+        put(st->outs[0] + ".d", st->outs[0] + ": " + Join(r.hdrs) + "\n", false);
       if (st->deps == "msvc")
-        for (auto& h : st->hdrs) *output += "Note: including file: " + h + "\n";
+        for (auto& h : r.hdrs) *output += "Note: including file: " + h + "\n";
     } else if (fs->second.touch) {
       for (auto& o : outs) put(o, Term("garbage", "e" + to_string(st->id), {}), true);
       if (st->deps == "depfile" || st->deps == "gcc")
-        put(st->outs[0] + ".d", st->outs[0] + ": " + Join(st->hdrs) + "\n", false);
+        put(st->outs[0] + ".d", st->outs[0] + ": " + Join(r.hdrs) + "\n", false);
     }
     if (fails) *output += "command failed (e" + to_string(st->id) + ")\n";
     *output += RenderOutput(*st);
@@ -1045,7 +1059,8 @@ static string GraphJson(const Scenario& sc) {
          ",\"pool\":" + JEsc(s.pool) + ",\"dd\":" + JEsc(s.dd) + ",\"ddi\":" + JStrs(s.ddi) + ",\"ddo\":" + JStrs(s.ddo) +
          ",\"ddr\":" + (s.ddr ? "true" : "false") + ",\"mkdd\":" + JEsc(s.mkdd) + ",\"ver\":" + to_string(s.ver) +
          ",\"rspver\":" + to_string(s.rspver) + ",\"vstr\":" + JEsc((s.gen ? string("gen") : "v" + to_string(s.ver)) + (s.rsp ? "|" + RspContent(s) : string(""))) +
-         ",\"en\":" + JEsc("e" + to_string(s.id)) + ",\"rsppath\":" + JEsc(s.rsp ? RspPath(s) : string("")) + ",\"rsptxt\":" + JEsc(s.rsp ? RspContent(s) : "") + ",\"ddtxt\":" + JEsc(s.mkdd.empty() ? "" : DdText(sc, s.mkdd)) + "}";
+         ",\"en\":" + JEsc("e" + to_string(s.id)) + ",\"rsppath\":" + JEsc(s.rsp ? RspPath(s) : string("")) + ",\"rsptxt\":" + JEsc(s.rsp ? RspContent(s) : "") + ",\"ddtxt\":" + JEsc(s.mkdd.empty() ? "" : DdText(sc, s.mkdd)) +
+         (s.hsel.empty() ? string("") : ",\"hsel\":" + JEsc(s.hsel) + ",\"hdrs2\":" + JStrs(s.hdrs2)) + "}";
   }
   return r + "]}";
 }
